@@ -96,10 +96,16 @@ fn ds_ops<F: PrimeField>(c: &mut Cx, a: &[F], s: &SparsePolynomial<F>) {
     c.emit("dssub", &args, guarded(|| shd(&(&pa - s).coeffs)));
     c.emit("dssubas", &args, guarded(|| { let mut x = pa.clone(); x -= s; shd(&x.coeffs) }));
 }
+/// a sparse divisor that stores its top degree twice makes `divide_with_q_and_r` loop forever
+/// (the "leading coefficient" it inverts is only the last stored term): such lines cannot be run.
+fn top_dup<F: PrimeField>(s: &SparsePolynomial<F>) -> bool {
+    let v = s.to_vec();
+    v.len() >= 2 && v[v.len() - 1].0 == v[v.len() - 2].0
+}
 fn ds_div<F: PrimeField>(c: &mut Cx, a: &[F], s: &SparsePolynomial<F>) {
     let pa = dp(a);
-    c.emit("dsdiv", &format!("{} {}", shd(a), shs(&s.to_vec())),
-        guarded(|| qr(DenseOrSparsePolynomial::from(&pa).divide_with_q_and_r(&s.into()))));
+    if !top_dup(s) { c.emit("dsdiv", &format!("{} {}", shd(a), shs(&s.to_vec())),
+        guarded(|| qr(DenseOrSparsePolynomial::from(&pa).divide_with_q_and_r(&s.into())))); }
     c.emit("sddiv", &format!("{} {}", shs(&s.to_vec()), shd(a)),
         guarded(|| qr(DenseOrSparsePolynomial::from(s).divide_with_q_and_r(&(&pa).into()))));
 }
@@ -124,7 +130,7 @@ fn ss_ops<F: PrimeField>(c: &mut Cx, s: &SparsePolynomial<F>, t: &SparsePolynomi
     if more {
         c.emit("saddas", &args, guarded(|| { let mut x = s.clone(); x += t; shs(&x.to_vec()) }));
         c.emit("saddv", &args, guarded(|| shs(&(s.clone() + t.clone()).to_vec())));
-        c.emit("ssdiv", &args, guarded(|| qr(DenseOrSparsePolynomial::from(s).divide_with_q_and_r(&t.into()))));
+        if !top_dup(t) { c.emit("ssdiv", &args, guarded(|| qr(DenseOrSparsePolynomial::from(s).divide_with_q_and_r(&t.into())))); }
     }
 }
 fn ss_scaled<F: PrimeField>(c: &mut Cx, s: &SparsePolynomial<F>, f: &F, t: &SparsePolynomial<F>) {
@@ -199,7 +205,7 @@ fn domains<F: PrimeField>(sizes: &[usize], offsets: &[F]) -> Vec<Dom<F>> {
 }
 
 // ------------------------------------------------------------------ toy fields: exhaustive
-struct Toy { lc: usize, ln: usize, ls_terms: usize, dense_for_sparse: usize, sample: usize, raw_len: usize, pool_len: usize }
+struct Toy { lc: usize, ln: usize, ls_terms: usize, dense_for_sparse: usize, sample: usize, raw_len: usize, pool_len: usize, few_cap: usize, max_offsets: usize }
 
 /// random canonical vector of length ≤ maxlen over the enumerated field
 fn toy_vec<F: PrimeField>(rng: &mut Rng, el: &[F], maxlen: usize) -> Vec<F> {
@@ -215,6 +221,8 @@ fn toy<F: PrimeField>(rng: &mut Rng, out: &mut Out, t: &Toy) {
     let mut c = Cx { out, p: format!("{:x}", p) };
     let el: Vec<F> = (0..p).map(F::from).collect();
     let nz: Vec<F> = el[1..].to_vec();
+    // scalars for the scaled-add loops: the whole field when tiny, else 0, 1, 2, p−1
+    let fsel: Vec<F> = if p <= 5 { el.clone() } else { vec![el[0], el[1], el[2], el[(p - 1) as usize]] };
     let vecs = all_vecs(&el, t.lc.max(t.ln));
     let can: Vec<&Vec<F>> = vecs.iter().filter(|v| v.len() <= t.lc && canon(v)).collect();
     let anyv: Vec<&Vec<F>> = vecs.iter().filter(|v| v.len() <= t.ln).collect();
@@ -232,7 +240,7 @@ fn toy<F: PrimeField>(rng: &mut Rng, out: &mut Out, t: &Toy) {
     } }
     // canonical: remaining ops on short operands exhaustively, on the rest sampled
     let short: Vec<&Vec<F>> = can.iter().cloned().filter(|v| v.len() <= 2).collect();
-    for a in &short { for b in &short { dd_more(&mut c, a, b); for f in &el { dd_scaled(&mut c, a, f, b); } } }
+    for a in &short { for b in &short { dd_more(&mut c, a, b); for f in &fsel { dd_scaled(&mut c, a, f, b); } } }
     for _ in 0..t.sample {
         let a = &toy_vec(rng, &el, t.pool_len); let b = &toy_vec(rng, &el, t.pool_len);
         dd_core(&mut c, a, b); dd_more(&mut c, a, b);
@@ -247,14 +255,16 @@ fn toy<F: PrimeField>(rng: &mut Rng, out: &mut Out, t: &Toy) {
         let a = &toy_vec(rng, &el, t.pool_len); let s = &sps[rng.below(sps.len() as u64) as usize];
         ds_ops(&mut c, a, s); ds_div(&mut c, a, s);
     }
-    let few: Vec<&SparsePolynomial<F>> = sps.iter().filter(|s| s.len() <= 2).collect();
+    let few0: Vec<&SparsePolynomial<F>> = sps.iter().filter(|s| s.len() <= 2).collect();
+    let stride = (few0.len() + t.few_cap - 1) / t.few_cap;
+    let few: Vec<&SparsePolynomial<F>> = few0.iter().cloned().step_by(stride.max(1)).collect();
     for s in &few { for u in &few { ss_ops(&mut c, s, u, true); } }
     for _ in 0..t.sample {
         let s = &sps[rng.below(sps.len() as u64) as usize]; let u = &sps[rng.below(sps.len() as u64) as usize];
         ss_ops(&mut c, s, u, true);
         ss_scaled(&mut c, s, &el[rng.below(p) as usize], u);
     }
-    for s in few.iter().take(30) { for u in few.iter().take(30) { for f in &el { ss_scaled(&mut c, s, f, u); } } }
+    for s in few.iter().take(30) { for u in few.iter().take(30) { for f in &fsel { ss_scaled(&mut c, s, f, u); } } }
     // sparse constructor: every raw list of ≤ raw_len terms over degrees {0,1,2} × coefficients {0,1,p−1}
     let tcoef = [F::zero(), F::one(), -F::one()];
     let mut terms: Terms<F> = Vec::new();
@@ -279,7 +289,7 @@ fn toy<F: PrimeField>(rng: &mut Rng, out: &mut Out, t: &Toy) {
     }
     for s in odd.iter().take(40) { for u in odd.iter().take(40) { ss_ops(&mut c, s, u, false); } }
     // domains (every subgroup size the field has) and every coset of them
-    let doms = domains(&[1, 2, 4, 8], &nz);
+    let doms = domains(&[1, 2, 4, 8], &nz[..nz.len().min(t.max_offsets)]);
     for d in &doms {
         for v in vecs.iter().filter(|v| v.len() <= 3) { dom_ops(&mut c, v, d); }
         for v in all_vecs(&el, d.size().min(2)).iter().filter(|v| v.len() == d.size().min(2)) { dom_interp(&mut c, v, d); }
@@ -456,16 +466,16 @@ fn main() {
     let only = a.only.clone().unwrap_or_default();
     let want = |n: &str| only.is_empty() || only == n;
     if want("f5") {
-        toy::<FDT5>(&mut rng, &mut out, &if th { Toy { lc: 4, ln: 3, ls_terms: 3, dense_for_sparse: 3, sample: 20000, raw_len: 4, pool_len: 6 } }
-                                         else { Toy { lc: 3, ln: 2, ls_terms: 3, dense_for_sparse: 2, sample: 1500, raw_len: 3, pool_len: 5 } });
+        toy::<FDT5>(&mut rng, &mut out, &if th { Toy { lc: 4, ln: 3, ls_terms: 3, dense_for_sparse: 3, sample: 20000, raw_len: 4, pool_len: 6, few_cap: 125, max_offsets: 12 } }
+                                         else { Toy { lc: 3, ln: 2, ls_terms: 3, dense_for_sparse: 2, sample: 1500, raw_len: 3, pool_len: 5, few_cap: 61, max_offsets: 12 } });
     }
     if want("f7") {
-        toy::<FDT7>(&mut rng, &mut out, &if th { Toy { lc: 3, ln: 2, ls_terms: 2, dense_for_sparse: 3, sample: 10000, raw_len: 3, pool_len: 6 } }
-                                         else { Toy { lc: 2, ln: 1, ls_terms: 2, dense_for_sparse: 2, sample: 600, raw_len: 2, pool_len: 5 } });
+        toy::<FDT7>(&mut rng, &mut out, &if th { Toy { lc: 3, ln: 2, ls_terms: 2, dense_for_sparse: 3, sample: 10000, raw_len: 3, pool_len: 6, few_cap: 80, max_offsets: 12 } }
+                                         else { Toy { lc: 2, ln: 1, ls_terms: 2, dense_for_sparse: 1, sample: 600, raw_len: 2, pool_len: 5, few_cap: 30, max_offsets: 4 } });
     }
     if want("f13") {
-        toy::<FDT13>(&mut rng, &mut out, &if th { Toy { lc: 2, ln: 2, ls_terms: 2, dense_for_sparse: 2, sample: 10000, raw_len: 3, pool_len: 6 } }
-                                          else { Toy { lc: 1, ln: 1, ls_terms: 1, dense_for_sparse: 2, sample: 600, raw_len: 2, pool_len: 5 } });
+        toy::<FDT13>(&mut rng, &mut out, &if th { Toy { lc: 2, ln: 2, ls_terms: 2, dense_for_sparse: 2, sample: 10000, raw_len: 3, pool_len: 6, few_cap: 80, max_offsets: 12 } }
+                                          else { Toy { lc: 1, ln: 1, ls_terms: 1, dense_for_sparse: 2, sample: 600, raw_len: 2, pool_len: 5, few_cap: 30, max_offsets: 4 } });
     }
     if want("fr") { big::<ark_test_curves::bls12_381::Fr>(&mut rng, &mut out, th); }
     out.flush();
